@@ -271,8 +271,10 @@ func dischargeAll(obls []*Obligation, opts solveOpts, par int) {
 			defer func() { <-sem }()
 			oo := opts
 			if o.MustFail {
-				oo.timeoutS = 2 // canaries are expected not to be provable; an inconsistency shows up at once
-				oo.all = false
+				// canaries are expected NOT to be provable; an inconsistent context is refuted at once, so one
+				// short run of two solvers on the full query is enough
+				dischargeCanary(o, oo)
+				return
 			}
 			discharge(o, oo)
 			if o.Status == "unknown" && !o.MustFail {
